@@ -25,6 +25,7 @@ var c10Good = []string{
 	`func cached(x) { println("computing"); x + 1 }; println(cached(1)); println(cached(1))`,
 	`m = {"a": 1}; m.a = 2; println(m, len("abc"), [1, 2][0])`,
 	`func lp() { t = 0; for k = 4 { if k == 2 { continue }; t = t + k }; t }; println(lp())`,
+	`println(catch(for i9 = 2 { i9 = "a" }).err)`, // observes whether top level loops still get a register
 }
 
 // failing inputs that complete no side effect. "CTX:" marks inputs run under an already cancelled context.
